@@ -1790,18 +1790,26 @@ feature! {
         }
 
         fn register_callsite(&self, metadata: &'static Metadata<'static>) -> Interest {
-            // Return highest level of interest.
-            let mut interest = Interest::never();
+            // Combine the interests the way `enabled` combines the decisions
+            // (`all`): a callsite that any subscriber in the `Vec` will never
+            // enable is never enabled, and it is only always enabled if every
+            // subscriber always enables it. Every subscriber is still asked, so
+            // that each one can register the callsite.
+            let mut any_never = false;
+            let mut all_always = true;
             for s in self {
-                let new_interest = s.register_callsite(metadata);
-                if (interest.is_sometimes() && new_interest.is_always())
-                    || (interest.is_never() && !new_interest.is_never())
-                {
-                    interest = new_interest;
-                }
+                let interest = s.register_callsite(metadata);
+                any_never |= interest.is_never();
+                all_always &= interest.is_always();
             }
 
-            interest
+            if any_never {
+                Interest::never()
+            } else if all_always {
+                Interest::always()
+            } else {
+                Interest::sometimes()
+            }
         }
 
         fn enabled(&self, metadata: &Metadata<'_>, ctx: Context<'_, C>) -> bool {
